@@ -246,7 +246,7 @@ def _gen_run(rng, run_idx, thorough, observed=False):
         if rng.random() < 0.5:
             prefixes = prefixes[::-1]
     return {"files": files, "scores": scores, "levels": levels,
-            "chunk": max(1, rng.choice([1, 2, 3, 5, nmax - 1, nmax, nmax + 1, 1000])),
+            "chunk": max(1, rng.choice([1, 2, 3, 5, nmax - 1, nmax, nmax + 1, 1000] + [d for d in range(2, nmax + 1) if nmax % d == 0])),
             "dedup": rng.random() < 0.6, "rollup": rng.random() < 0.7, "decoys": rng.random() < 0.6,
             "prefixes": prefixes, "fmt": rng.choice(["tsv", "tsv", "tsv", "parquet"]), "workers": 1,
             "end": "complete"}
@@ -274,6 +274,12 @@ def gen(ctx):
             junk.append({"kind": rng.choice(["chunk", "chunk", "level", "result", "garbage-chunk", "other"]),
                          "index": rng.choice([0, 1, 2, 5, 17]), "pfx": rng.choice([None, None, "coll0", "coll1"]),
                          "seed": rng.randint(0, 10 ** 6)})
+        if rng.random() < 0.6:
+            # a stale chunk file whose index is just past (or at) the last chunk the observed run writes
+            j = rng.randrange(len(obs["files"]))
+            nrows = len(obs["files"][j]["targets"])
+            junk.append({"kind": rng.choice(["chunk", "chunk", "garbage-chunk"]), "index": max(0, -(-nrows // obs["chunk"]) + rng.choice([0, 0, -1, 1])),
+                         "pfx": obs["prefixes"][j], "seed": rng.randint(0, 10 ** 6)})
         if rng.random() < 0.6:
             # an old result file under exactly a name the observed run will write
             junk.append({"kind": "own-result", "index": rng.randint(0, 50), "pfx": None, "seed": rng.randint(0, 10 ** 6)})
@@ -348,6 +354,8 @@ def _exec_run(spec, indir, out, tap):
                 return "killed"
             except Injected:
                 return "failed"
+            except Exception as e:       # noqa: the run itself raised
+                return "raised " + type(e).__name__
     finally:
         conf.peps_from_scores = old
 
